@@ -21,15 +21,16 @@ type tv struct {
 }
 
 type Env struct {
-	ex        *Exec
-	vars      map[string]tv
-	st        *State // current ("post") state
-	old       *State // state for old(...)
-	pkg       *types.Package
-	frame     *frame // for invariants: resolve locals
-	depth     int
-	siteBlock *ssa.BasicBlock
-	siteInstr ssa.Instruction
+	ex         *Exec
+	vars       map[string]tv
+	st         *State // current ("post") state
+	old        *State // state for old(...)
+	pkg        *types.Package
+	frame      *frame // for invariants: resolve locals
+	depth      int
+	entryAlloc Term
+	siteBlock  *ssa.BasicBlock
+	siteInstr  ssa.Instruction
 }
 
 func (env *Env) with(st *State) *Env {
@@ -792,7 +793,11 @@ func (env *Env) call(x *ast.CallExpr) (tv, error) {
 			return tv{}, err
 		}
 		ex.regComp(compAlloc, SInt)
-		return tv{t: app(SBool, ">=", v.t, ex.get(env.old, compAlloc, SInt))}, nil
+		base := ex.get(env.old, compAlloc, SInt)
+		if env.entryAlloc.S != "" {
+			base = env.entryAlloc // allocated since the entry of the activation under verification
+		}
+		return tv{t: app(SBool, ">=", v.t, base)}, nil
 	case "str":
 		// str(b): the string spelled by a byte slice
 		v, err := argv(0)
